@@ -45,7 +45,10 @@ RULE = (
     "(click outside the axes, other buttons/keys, all-NaN columns) with the real redraw; hand-over SSI_mpe/pLSCF_mpe "
     "vs model. oracle: list-of-pairs transition relation written from the property text on the same enumeration and "
     "on random histories of <= 6 mouse actions; permuted click orders; mpe_from_plot end to end with only Tk patched "
-    "(events dispatched through the real matplotlib callbacks). distinct = distinct (dialog, selection size, "
+    "(events dispatched through the real matplotlib callbacks), two dialogs in a row per algorithm object, three "
+    "algorithms per session. The displayed band (freqlim) is varied everywhere (default / lower edge above the first "
+    "lines), frequencies are scaled by 2**-27..2**27, and the algorithm's result arrays are monitored to come back "
+    "unmodified. distinct = distinct (dialog, selection size, "
     "button, shift, exception) situations"
 )
 EXTRA_TRUSTED = [
@@ -85,7 +88,7 @@ def mk_algo_fdd(freq, seed=0):
     return NS(fs=40.0, result=NS(freq=freq, S_val=np.abs(g.standard_normal((2, 2, len(freq)))) + 1.0))
 
 
-def mk_dialog(plot, algo, redraw="stub"):
+def mk_dialog(plot, algo, redraw="stub", freqlim=None):
     """SelFromPlot without Tk: the attributes __init__ and _initialize_gui set, on an Agg canvas.
     redraw: 'stub' (plot_* replaced by a counter), 'nodraw' (real plot_*, canvas.draw_idle no-op), 'full'."""
     from matplotlib.backends.backend_agg import FigureCanvasAgg
@@ -95,7 +98,7 @@ def mk_dialog(plot, algo, redraw="stub"):
     s.algo = algo
     s.plot = plot
     s.fs = algo.fs
-    s.freqlim = (0.0, algo.fs / 2)
+    s.freqlim = freqlim if freqlim is not None else (0.0, algo.fs / 2)  # as __init__
     s.shift_is_held = False
     s.sel_freq = []
     if plot in STAB:
@@ -211,6 +214,9 @@ FREQ = [0.0, 0.75, 1.5, 2.25, 3.0, 3.75, 4.5, 5.25]
 POINTS = [(0.875, 0.25), (5.375, 1.0), (3.125, 2.25), (1.125, 3.0), (4.25, 3.75), (6.0, 1.5)]
 ALPHABET = [("kp", "shift"), ("kr", "shift")] + [("click", b, p) for b in (1, 2, 3) for p in POINTS]
 INITS = [(False, [], []), (True, [], [])]
+# displayed band (`freqlim` of mpe_from_plot) per initial state: default, and a band starting above the
+# first frequency line / lowest pole (the property text does not depend on the band)
+BANDS = [None, (1.0, 4.5)]
 
 
 def dialogs():
@@ -234,9 +240,22 @@ def walk(s, alphabet, depth, visit, path=None):
 
 
 # ----------------------------------------------------------------------------- random cases
-def rand_table(rng):
+def rand_scale(rng):
+    """power of two (exact in floating point) between ~1e-8 and ~1e8; mostly 1"""
+    return 1.0 if rng.random() < 0.5 else 2.0 ** rng.randint(-27, 27)
+
+
+def rand_band(rng, scale=1.0):
+    """`freqlim`: default, or a band whose lower edge is above the lowest lines"""
+    if rng.random() < 0.35:
+        return None
+    lo = rng.choice([0.0, 0.3, 0.5, 1.0, 1.7, 2.5, 4.0]) * scale
+    return (lo, lo + rng.choice([1.0, 3.0, 8.0, 20.0]) * scale)
+
+
+def rand_table(rng, scale=1.0):
     nr, nc = rng.randint(1, 5), rng.randint(1, 6)
-    pool = [k / 8 for k in range(0, 97)]
+    pool = [k / 8 * scale for k in range(0, 97)]
     Fn = [[(float("nan") if rng.random() < 0.3 else rng.choice(pool)) for _ in range(nc)] for _ in range(nr)]
     if rng.random() < 0.25:  # an all-NaN order
         j = rng.randrange(nc)
@@ -250,13 +269,13 @@ def rand_table(rng):
     return Fn
 
 
-def rand_freq(rng):
+def rand_freq(rng, scale=1.0):
     n = rng.randint(1, 12)
-    df = rng.choice([0.25, 0.5, 0.375])
+    df = rng.choice([0.25, 0.5, 0.375]) * scale
     return [k * df for k in range(n)]
 
 
-def rand_event(rng, plot, data, malformed):
+def rand_event(rng, plot, data, malformed, scale=1.0):
     u = rng.random()
     if u < 0.12:
         return ("kp", "shift")
@@ -269,14 +288,14 @@ def rand_event(rng, plot, data, malformed):
         return ("click", b, None)
     if plot in STAB:
         nc = len(data[0])
-        return ("click", b, (rng.randint(-16, 13 * 16) / 16, rng.randint(-6, 4 * nc + 6) / 4))
-    return ("click", b, (rng.randint(-16, 6 * 16) / 16, rng.randint(-40, 40) / 4))
+        return ("click", b, (rng.randint(-16, 13 * 16) / 16 * scale, rng.randint(-6, 4 * nc + 6) / 4))
+    return ("click", b, (rng.randint(-16, 6 * 16) / 16 * scale, rng.randint(-40, 40) / 4))
 
 
-def rand_history(rng, plot, data, n, malformed, shifted=0.85):
+def rand_history(rng, plot, data, n, malformed, shifted=0.85, scale=1.0):
     evs = [("kp", "shift")] if rng.random() < shifted else []
     while len(evs) < n:
-        evs.append(rand_event(rng, plot, data, malformed))
+        evs.append(rand_event(rng, plot, data, malformed, scale))
     return evs
 
 
@@ -286,8 +305,8 @@ def correspondence(ctx):
     # (1) ALL histories up to `depth`, each dialog, with and without the modifier initially held
     for plot, data in dialogs():
         algo = mk_algo_stab(data) if plot in STAB else mk_algo_fdd(data)
-        for init in INITS:
-            s = mk_dialog(plot, algo, "stub")
+        for init, band in zip(INITS, BANDS):
+            s = mk_dialog(plot, algo, "stub", band)
             set_state(s, init)
             pj = plot_json(plot, data)
             model = ctx.model("pick_tree", alphabet=[ev_json(e) for e in ALPHABET], depth=depth, init=state_json(init), **pj)
@@ -318,13 +337,19 @@ def correspondence(ctx):
     n_real = ctx.n(6, 60)  # with the real redraw code (slow: matplotlib)
     for k in range(n_rand):
         plot = ctx.rng.choice(["SSI", "pLSCF", "FDD"])
-        data = rand_table(ctx.rng) if plot in STAB else rand_freq(ctx.rng)
-        evs = rand_history(ctx.rng, plot, data, ctx.rng.randint(4, 14), malformed=True)
+        sc = rand_scale(ctx.rng) if k >= n_real else 1.0
+        band = rand_band(ctx.rng, sc)
+        data = rand_table(ctx.rng, sc) if plot in STAB else rand_freq(ctx.rng, sc)
+        evs = rand_history(ctx.rng, plot, data, ctx.rng.randint(4, 14), malformed=True, scale=sc)
+        if sc != 1.0:
+            ctx.count("scaled_histories")
+        if band is not None and band[0] > 0:
+            ctx.count("band_above_zero")
         if k % 10 == 9:  # long, pick-heavy, few distinct frequencies: > 16 entries, many equal keys in the sort
             if plot in STAB:
-                data = [[ctx.rng.choice([1.0, 2.0, 2.0, 3.5, float("nan")]) for _ in range(5)] for _ in range(4)]
+                data = [[ctx.rng.choice([1.0, 2.0, 2.0, 3.5, float("nan")]) * sc for _ in range(5)] for _ in range(4)]
             evs = [("kp", "shift")] + [
-                ("click", ctx.rng.choice([1, 1, 1, 1, 2, 3]), (ctx.rng.randint(0, 64) / 16, ctx.rng.randint(-2, 20) / 4))
+                ("click", ctx.rng.choice([1, 1, 1, 1, 2, 3]), (ctx.rng.randint(0, 64) / 16 * sc, ctx.rng.randint(-2, 20) / 4))
                 for _ in range(ctx.rng.randint(25, 45))
             ]
             ctx.count("long_histories")
@@ -333,7 +358,7 @@ def correspondence(ctx):
             mode = "full" if k % 3 == 0 else "nodraw"
             evs = evs[:8]
         algo = mk_algo_stab(data) if plot in STAB else mk_algo_fdd(data, k)
-        s = mk_dialog(plot, algo, mode)
+        s = mk_dialog(plot, algo, mode, band)
         model = ctx.model("pick_replay", events=[ev_json(e) for e in evs], **plot_json(plot, data))
         for i, e in enumerate(evs):
             r = apply_event(s, e)
@@ -342,7 +367,7 @@ def correspondence(ctx):
             ctx.corr(
                 f"handlers[{plot}]",
                 ok,
-                {"plot": plot, "data": data, "events": evs[: i + 1]} if not ok else None,
+                {"plot": plot, "data": data, "band": band, "events": evs[: i + 1]} if not ok else None,
                 model[i],
                 {"state": o, "raised": r},
                 ("rand", len(o[1]), e[0], e[1], o[0], r),
@@ -494,7 +519,32 @@ class Truth:
         return None
 
 
-def _oracle_history(ctx, plot, data, evs, s, seen):
+def _snapshot(algo):
+    r = algo.result
+    return {k: np.array(getattr(r, k), copy=True) for k in ("Fn_poles", "Lab", "freq", "S_val") if hasattr(r, k)}
+
+
+def _inputs_untouched(snap, algo):
+    """the dialog only reads the algorithm's results: they must come back bit-identical"""
+    for k, v in snap.items():
+        w = np.asarray(getattr(algo.result, k))
+        if w.shape != v.shape or not np.array_equal(w, v, equal_nan=True):
+            return k
+    return None
+
+
+def _oracle_history(ctx, plot, data, evs, s, seen, band=None):
+    snap = _snapshot(s.algo)
+    ok = _oracle_history0(ctx, plot, data, evs, s, seen, band)
+    bad = _inputs_untouched(snap, s.algo)
+    ctx.oracle_cases += 1
+    if bad:
+        _report(ctx, seen, ("dialog-modified-algorithm-result", f"result.{bad} of the algorithm was modified by the dialog"), plot, data, evs, s, None, band)
+        return False
+    return ok
+
+
+def _oracle_history0(ctx, plot, data, evs, s, seen, band=None):
     t = Truth(plot, data)
     t.shift = bool(s.shift_is_held)
     t.sel = t.observed(s)
@@ -503,19 +553,19 @@ def _oracle_history(ctx, plot, data, evs, s, seen):
         v = t.check(e, s, r)
         ctx.oracle_cases += 1
         if v:
-            _report(ctx, seen, v, plot, data, evs[: i + 1], s)
+            _report(ctx, seen, v, plot, data, evs[: i + 1], s, None, band)
             return False
     return True
 
 
-def _report(ctx, seen, v, plot, data, evs, s, init=None):
+def _report(ctx, seen, v, plot, data, evs, s, init=None, band=None):
     ctx.count("oracle_" + v[0])
     if seen.get(v[0], 0) < 2:
         seen[v[0]] = seen.get(v[0], 0) + 1
         ctx.violation(
             v[0],
             f"{plot}: {v[1]}",
-            {"kind": "history", "plot": plot, "data": data, "init": init, "events": [list(e) for e in evs]},
+            {"kind": "history", "plot": plot, "data": data, "init": init, "band": band, "events": [list(e) for e in evs]},
             observed={"sel_freq": [float(x) for x in s.sel_freq], "ind": [int(x) for x in _ind(s)]},
         )
 
@@ -526,8 +576,8 @@ def oracle(ctx, scale):
     # (a) the exhaustive enumeration, checked against the statement
     for plot, data in dialogs():
         algo = mk_algo_stab(data) if plot in STAB else mk_algo_fdd(data)
-        for init in INITS:
-            s = mk_dialog(plot, algo, "stub")
+        for init, band in zip(INITS, BANDS):
+            s = mk_dialog(plot, algo, "stub", band)
             set_state(s, init)
             truths = [Truth(plot, data)]
             truths[0].shift = init[0]
@@ -541,7 +591,7 @@ def oracle(ctx, scale):
                 ctx.oracle_cases += 1
                 ctx.nontrivial.add(("oracle", plot, len(s.sel_freq), e[0], e[1], t2.shift))
                 if v:
-                    _report(ctx, seen, v, plot, data, list(path), s, init)
+                    _report(ctx, seen, v, plot, data, list(path), s, init, s.freqlim)
                     return False
                 truths.append(t2)
                 return True
@@ -550,18 +600,22 @@ def oracle(ctx, scale):
     # (b) random histories with up to 6 mouse actions over arbitrary tables
     for k in range(ctx.n(300, 6000) * scale):
         plot = ctx.rng.choice(["SSI", "pLSCF", "FDD"])
-        data = rand_table(ctx.rng) if plot in STAB else rand_freq(ctx.rng)
-        evs = rand_history(ctx.rng, plot, data, ctx.rng.randint(2, 9), malformed=False)
+        sc = rand_scale(ctx.rng)
+        band = rand_band(ctx.rng, sc)
+        data = rand_table(ctx.rng, sc) if plot in STAB else rand_freq(ctx.rng, sc)
+        evs = rand_history(ctx.rng, plot, data, ctx.rng.randint(2, 9), malformed=False, scale=sc)
         algo = mk_algo_stab(data) if plot in STAB else mk_algo_fdd(data, k)
-        s = mk_dialog(plot, algo, "stub")
-        _oracle_history(ctx, plot, data, evs, s, seen)
+        s = mk_dialog(plot, algo, "stub", band)
+        _oracle_history(ctx, plot, data, evs, s, seen, band)
         ctx.count("oracle_random_histories")
     # (c) "irrespective of the order in which the poles were clicked": permuted pick sequences
     for k in range(ctx.n(60, 800) * scale):
         plot = ctx.rng.choice(["SSI", "pLSCF"])
-        data = rand_table(ctx.rng)
+        sc = rand_scale(ctx.rng)
+        band = rand_band(ctx.rng, sc)
+        data = rand_table(ctx.rng, sc)
         npk = ctx.rng.randint(2, 4)
-        clicks = [rand_event(ctx.rng, plot, data, False) for _ in range(12)]
+        clicks = [rand_event(ctx.rng, plot, data, False, sc) for _ in range(12)]
         clicks = [("click", 1, c[2]) for c in clicks if c[0] == "click"][:npk]
         # keep away from ties: the designated pole must be unique
         t = Truth(plot, data)
@@ -570,7 +624,7 @@ def oracle(ctx, scale):
             continue
         want = Counter(next(iter(t.candidates(*c[2]))) for c in clicks)
         for perm in itertools.permutations(clicks):
-            s = mk_dialog(plot, mk_algo_stab(data), "stub")
+            s = mk_dialog(plot, mk_algo_stab(data), "stub", band)
             evs = [("kp", "shift")] + list(perm) + [("kr", "shift")]
             for e in evs:
                 apply_event(s, e)
@@ -580,7 +634,7 @@ def oracle(ctx, scale):
                 _report(
                     ctx, seen,
                     ("pairs-depend-on-click-order", f"click order {[c[2] for c in perm]} hands over {sorted(got.elements())}, picked {sorted(want.elements())}"),
-                    plot, data, evs, s,
+                    plot, data, evs, s, None, band,
                 )
                 break
     # (d) mpe_from_plot end to end: real algorithms, real SelFromPlot.__init__, real matplotlib dispatch
@@ -670,99 +724,107 @@ def _end_to_end(ctx, seen, k):
     ss.add_algorithms(*algs.values())
     for plot, alg in algs.items():
         ss.run_by_name(plot)
-        res = alg.result
-        stab = plot in STAB
-        if stab:
-            Fn = np.asarray(res.Fn_poles, float)
-            cols = [j for j in range(Fn.shape[1]) if (~np.isnan(Fn[:, j]) & (Fn[:, j] < fs / 2 - 1) & (Fn[:, j] > 0.5)).any()]
-            if len(cols) < 2:
+        for rnd in range(2):  # the same algorithm object is used for two dialogs in a row
+            res = alg.result
+            stab = plot in STAB
+            if stab:
+                Fn = np.asarray(res.Fn_poles, float)
+                cols = [j for j in range(Fn.shape[1]) if (~np.isnan(Fn[:, j]) & (Fn[:, j] < fs / 2 - 1) & (Fn[:, j] > 1.0)).any()]
+                if len(cols) < 2:
+                    ctx.skipped += 1
+                    continue
+                picks = []
+                for o in ctx.rng.sample(cols, min(len(cols), ctx.rng.randint(2, 4))):
+                    col = [f for f in Fn[:, o] if not math.isnan(f) and 1.0 < f < fs / 2 - 1]
+                    f = ctx.rng.choice(col)
+                    picks.append((f + ctx.rng.uniform(-0.02, 0.02), o + ctx.rng.uniform(-0.3, 0.3)))
+            else:
+                picks = [(ctx.rng.uniform(1.0, fs / 2 - 2), 0.0) for _ in range(ctx.rng.randint(2, 4))]
+            clicks = [("kp", "shift")] + [("click", 1, p) for p in picks]
+            # one deselect-nearest of a picked pole and a re-pick, one unshifted click
+            if len(picks) > 2 and ctx.rng.random() < 0.5:
+                clicks += [("click", 2, picks[0])]
+            clicks += [("kr", "shift"), ("click", 1, picks[0]), ("click", 3, picks[0])]
+            script = _Script(clicks)
+            # displayed band: non-default (lower edge above the first lines) on the first run, then mixed
+            band = (ctx.rng.uniform(0.3, 0.9), fs / 2 - ctx.rng.uniform(0.0, 0.5)) if (k == 0 or ctx.rng.random() < 0.6) else None
+            script.band = band
+            snap = _snapshot(alg)
+            handed = {}
+            with contextlib.ExitStack() as st:
+                for cm in _patched_dialog(script):
+                    st.enter_context(cm)
+                if not stab:
+                    import unittest.mock as um
+
+                    from pyoma2.functions import fdd as fddmod
+
+                    real = fddmod.FDD_mpe
+
+                    def spy(*a, **kw):
+                        handed["sel_freq"] = [float(v) for v in kw["sel_freq"]]
+                        return real(*a, **kw)
+
+                    st.enter_context(um.patch("pyoma2.functions.fdd.FDD_mpe", spy))
+                try:
+                    ss.mpe_from_plot(plot, freqlim=band)
+                except Exception as ex:  # noqa: BLE001
+                    ctx.oracle_cases += 1
+                    _report_e2e(ctx, seen, "e2e-exception", f"{plot}: mpe_from_plot raised {type(ex).__name__}: {ex}", plot, script)
+                    plt.close("all")
+                    continue
+            plt.close("all")
+            bad = _inputs_untouched(snap, alg)
+            if bad:
+                _report_e2e(ctx, seen, "dialog-modified-algorithm-result", f"{plot}: result.{bad} was modified by mpe_from_plot", plot, script)
+            # expected selection from the statement, on the coordinates matplotlib actually delivered
+            data = Fn if stab else np.asarray(res.freq, float)
+            t = Truth(plot, data)
+            sel = Counter()
+            shift = False
+            tie = False
+            for e in script.delivered:
+                if e[0] in ("kp", "kr"):
+                    shift = (e[0] == "kp") if e[1] == "shift" else shift
+                elif shift and e[1] == 1:
+                    c = t.candidates(*e[2])
+                    tie |= len(c) != 1
+                    sel[next(iter(c))] += 1
+                elif shift and e[1] == 2 and sel:
+                    d = {p: abs(t.freq_of(p) - e[2][0]) for p in sel}
+                    dm = min(d.values())
+                    tie |= sum(1 for p in d if d[p] == dm) != 1
+                    sel[min(d, key=d.get)] -= 1
+                    sel = +sel
+                elif shift and e[1] == 3 and sel:
+                    tie = True  # which entry goes is not fixed by the statement
+            if tie or not sel:
                 ctx.skipped += 1
                 continue
-            picks = []
-            for o in ctx.rng.sample(cols, min(len(cols), ctx.rng.randint(2, 4))):
-                col = [f for f in Fn[:, o] if not math.isnan(f) and 0.5 < f < fs / 2 - 1]
-                f = ctx.rng.choice(col)
-                picks.append((f + ctx.rng.uniform(-0.02, 0.02), o + ctx.rng.uniform(-0.3, 0.3)))
-        else:
-            picks = [(ctx.rng.uniform(1.0, fs / 2 - 2), 0.0) for _ in range(ctx.rng.randint(2, 4))]
-        clicks = [("kp", "shift")] + [("click", 1, p) for p in picks]
-        # one deselect-nearest of a picked pole and a re-pick, one unshifted click
-        if len(picks) > 2 and ctx.rng.random() < 0.5:
-            clicks += [("click", 2, picks[0])]
-        clicks += [("kr", "shift"), ("click", 1, picks[0]), ("click", 3, picks[0])]
-        script = _Script(clicks)
-        handed = {}
-        with contextlib.ExitStack() as st:
-            for cm in _patched_dialog(script):
-                st.enter_context(cm)
-            if not stab:
-                import unittest.mock as um
-
-                from pyoma2.functions import fdd as fddmod
-
-                real = fddmod.FDD_mpe
-
-                def spy(*a, **kw):
-                    handed["sel_freq"] = [float(v) for v in kw["sel_freq"]]
-                    return real(*a, **kw)
-
-                st.enter_context(um.patch("pyoma2.functions.fdd.FDD_mpe", spy))
-            try:
-                ss.mpe_from_plot(plot, freqlim=(0.0, fs / 2))
-            except Exception as ex:  # noqa: BLE001
-                ctx.oracle_cases += 1
-                _report_e2e(ctx, seen, "e2e-exception", f"{plot}: mpe_from_plot raised {type(ex).__name__}: {ex}", plot, script)
-                plt.close("all")
-                continue
-        plt.close("all")
-        # expected selection from the statement, on the coordinates matplotlib actually delivered
-        data = Fn if stab else np.asarray(res.freq, float)
-        t = Truth(plot, data)
-        sel = Counter()
-        shift = False
-        tie = False
-        for e in script.delivered:
-            if e[0] in ("kp", "kr"):
-                shift = (e[0] == "kp") if e[1] == "shift" else shift
-            elif shift and e[1] == 1:
-                c = t.candidates(*e[2])
-                tie |= len(c) != 1
-                sel[next(iter(c))] += 1
-            elif shift and e[1] == 2 and sel:
-                d = {p: abs(t.freq_of(p) - e[2][0]) for p in sel}
-                dm = min(d.values())
-                tie |= sum(1 for p in d if d[p] == dm) != 1
-                sel[min(d, key=d.get)] -= 1
-                sel = +sel
-            elif shift and e[1] == 3 and sel:
-                tie = True  # which entry goes is not fixed by the statement
-        if tie or not sel:
-            ctx.skipped += 1
-            continue
-        ctx.oracle_cases += 1
-        ctx.count(f"e2e_{plot}")
-        if stab:
-            got = Counter(zip((float(v) for v in np.asarray(alg.result.Fn).reshape(-1)), (int(v) for v in np.asarray(alg.result.order_out).reshape(-1))))
-            if got != sel:
-                _report_e2e(
-                    ctx, seen, "e2e-extracted-modes-differ",
-                    f"{plot}: mpe_from_plot extracted (Fn, order_out) = {sorted(got.elements())}, the poles picked are {sorted(sel.elements())}",
-                    plot, script,
-                )
-        else:
-            got = Counter(handed.get("sel_freq", []))
-            if got != sel:
-                _report_e2e(
-                    ctx, seen, "e2e-handed-lines-differ",
-                    f"FDD: FDD_mpe received {sorted(got.elements())}, the lines picked are {sorted(sel.elements())}", plot, script,
-                )
+            ctx.oracle_cases += 1
+            ctx.count(f"e2e_{plot}")
+            if stab:
+                got = Counter(zip((float(v) for v in np.asarray(alg.result.Fn).reshape(-1)), (int(v) for v in np.asarray(alg.result.order_out).reshape(-1))))
+                if got != sel:
+                    _report_e2e(
+                        ctx, seen, "e2e-extracted-modes-differ",
+                        f"{plot}: mpe_from_plot extracted (Fn, order_out) = {sorted(got.elements())}, the poles picked are {sorted(sel.elements())}",
+                        plot, script,
+                    )
+            else:
+                got = Counter(handed.get("sel_freq", []))
+                if got != sel:
+                    _report_e2e(
+                        ctx, seen, "e2e-handed-lines-differ",
+                        f"FDD: FDD_mpe received {sorted(got.elements())}, the lines picked are {sorted(sel.elements())}", plot, script,
+                    )
 
 
 def _report_e2e(ctx, seen, sig, what, plot, script):
     ctx.count("oracle_" + sig)
     if seen.get(sig, 0) < 1:
         seen[sig] = 1
-        ctx.violation(sig, what, {"kind": "e2e", "plot": plot, "delivered": [list(e) for e in script.delivered]})
+        ctx.violation(sig, what, {"kind": "e2e", "plot": plot, "band": getattr(script, "band", None), "delivered": [list(e) for e in script.delivered]})
 
 
 # ----------------------------------------------------------------------------- replay
@@ -777,7 +839,7 @@ def replay(rec):
     plot = inp["plot"]
     data = [[float("nan") if x == "nan" else x for x in row] for row in inp["data"]] if plot in STAB else inp["data"]
     algo = mk_algo_stab(data) if plot in STAB else mk_algo_fdd(data)
-    s = mk_dialog(plot, algo, "stub")
+    s = mk_dialog(plot, algo, "stub", tuple(inp["band"]) if inp.get("band") else None)
     if inp.get("init"):
         set_state(s, inp["init"])
     t = Truth(plot, data)
